@@ -60,7 +60,7 @@ def cmp_facts(fn, target_block, _depth=0):
                 continue
             only = lits[0][1] == 'false'          # the edge on which the flag cannot be the literal
             terms = frozenset(rest)
-            if not _flag_fresh(fn, b):
+            if fn.flag_info(b) is None and not _flag_fresh(fn, b):
                 continue
         if len(terms) != 1:
             continue
